@@ -116,3 +116,16 @@ Example C11_one_point_example :
   one_point_rows opsQ 3 [0;2;5;7]%Z [0;1;0;1;2;1;2]%Z [2#1;-1#1;-1#1;2#1;-1#1;-1#1;2#1] [1;0;1]%Z
   = [[(0%Z, 1#1)]; [(0%Z, 1#1)]; [(1%Z, 1#1)]].
 Proof. vm_compute. reflexivity. Qed.
+
+(* local approximate ideal restriction: row i of R (coarse point c) holds the identity at c and weights r on the F points of its
+   sparsity pattern F_i; local_air takes r from  r A[F_i, F_i] = -A[c, F_i].  This is EQUIVALENT to (R A)[i, j] = 0 for every j in
+   F_i, for point rows and for block rows (b x b blocks) alike, over any ring.  (The check recomputes R A on the pattern for every
+   built restriction, QR and GMRES local solves, CSR and BSR.) *)
+From mathcomp Require Import all_ssreflect all_algebra.
+Require Import PV.Algebra.AirRow.
+Local Open Scope ring_scope.
+Theorem C11_air_row_annihilates_its_pattern :
+  forall (F : ringType) (b k : nat) (Aff : 'M[F]_(k, k)) (Acf : 'M[F]_(b, k)) (r : 'M[F]_(b, k)),
+  r *m Aff = - Acf <-> row_mx r 1%:M *m col_mx Aff Acf = 0.
+Proof. move=> F b k Aff Acf r; split; [exact: air_row_annihilates_pattern|exact: air_row_characterised]. Qed.
+Print Assumptions C11_air_row_annihilates_its_pattern.
